@@ -112,6 +112,10 @@ type Case struct {
 	// Prelude: octets of ANOTHER connection on which the same codec value is used first and which is left
 	// with an incomplete frame (codec values are stateless by contract and may be shared between connections).
 	Prelude string `json:"prelude,omitempty"`
+	// PreludeFailAt >= 0: the other connection is served by the BLOCKING extractor and fails (FailKind) at
+	// this offset - e.g. a read deadline expiring inside a length prefix - and is then abandoned.
+	PreludeFailAt int  `json:"prelude_fail_at,omitempty"`
+	PreludeBlock  bool `json:"prelude_blocking,omitempty"`
 }
 
 func (c Case) failErr() error {
@@ -178,10 +182,19 @@ func run(c Case) *vk.Violation {
 	k := c.Codec + "/" + c.Mode
 	if c.Prelude != "" {
 		// the same codec value first serves another connection, which stays in the middle of a frame
-		pre := &conn{buf: vk.UnHex(c.Prelude), failAt: -1, nilShort: c.NilShort}
-		for i := 0; i < 4; i++ {
-			if _, err := cd.Decode(pre); err != nil {
-				break
+		if c.PreludeBlock {
+			pre := &conn{pending: [][]byte{vk.UnHex(c.Prelude)}, failAt: c.PreludeFailAt, failErr: c.failErr()}
+			for i := 0; i < 4; i++ {
+				if _, err := cd.DecodeBlocked(pre); err != nil {
+					break
+				}
+			}
+		} else {
+			pre := &conn{buf: vk.UnHex(c.Prelude), failAt: -1, nilShort: c.NilShort}
+			for i := 0; i < 4; i++ {
+				if _, err := cd.Decode(pre); err != nil {
+					break
+				}
 			}
 		}
 		k += "/after-other-connection"
@@ -304,6 +317,9 @@ func frameOf(body []byte) []byte {
 	return f
 }
 
+// command ids of SMPP 3.4, CMPP, SGIP and SMGP (requests; the response bit is drawn)
+var commandIDs = []uint32{0x01, 0x02, 0x03, 0x04, 0x05, 0x06, 0x07, 0x08, 0x09, 0x0b, 0x15, 0x21, 0x102, 0x103, 0x10, 0x11, 0x1000, 0}
+
 var bodyGen = rapid.Custom(func(t *rapid.T) []byte {
 	var n int
 	switch rapid.IntRange(0, 19).Draw(t, "sizeclass") {
@@ -315,6 +331,23 @@ var bodyGen = rapid.Custom(func(t *rapid.T) []byte {
 		n = rapid.IntRange(0, 65532).Draw(t, "big")
 	default:
 		n = rapid.IntRange(0, 60).Draw(t, "small")
+	}
+	if rapid.IntRange(0, 3).Draw(t, "pdulike") == 0 {
+		// what the stream really carries: PDU headers. The body begins with a command id of one of the
+		// protocols (status / sequence words follow), whatever the frame's length is - a frame is delimited
+		// by its prefix alone, never by what its command usually weighs.
+		id := rapid.SampledFrom(commandIDs).Draw(t, "cmdid")
+		if rapid.Bool().Draw(t, "resp") {
+			id |= 0x80000000
+		}
+		n = rapid.SampledFrom([]int{4, 8, 12, 13, 16, 17, 20, 29, 40, 200}).Draw(t, "pdulen")
+		b := make([]byte, n)
+		sm := vk.SplitMix(rapid.Uint64().Draw(t, "pseed"))
+		for i := range b {
+			b[i] = byte(sm.Next())
+		}
+		binary.BigEndian.PutUint32(b, id)
+		return b
 	}
 	var b []byte
 	if n <= 60 {
@@ -381,6 +414,15 @@ func drawCase(t *rapid.T) Case {
 		if cut >= 4 {
 			c.Prelude = vk.Hex(append(append([]byte{}, done...), f[:cut]...))
 		}
+		if rapid.Bool().Draw(t, "preludeblocking") {
+			// the blocking extractor on the other connection, failing at a drawn offset - inside the second
+			// frame's prefix (1..3 octets of it consumed), at its start, or inside its body
+			c.PreludeBlock = true
+			c.PreludeFailAt = len(done) + rapid.SampledFrom([]int{0, 1, 2, 3, 4, 5}).Draw(t, "preludefailoff")
+			if c.FailKind == "" {
+				c.FailKind = rapid.SampledFrom([]string{"", "timeout", "timeout", "eof"}).Draw(t, "preludefailkind")
+			}
+		}
 	}
 	return c
 }
@@ -413,7 +455,7 @@ func eval(t vk.TB, c Case, constructed bool) {
 		if constructed {
 			rec.NonTrivialConstructed(1)
 		} else {
-			rec.NonTrivial(c.Codec, c.Mode, fmt.Sprint(c.Frames), c.Tail, fmt.Sprint(c.Cuts), c.FailAt, c.NilShort, c.FailKind, c.Transient, c.Prelude, c.DataErr)
+			rec.NonTrivial(c.Codec, c.Mode, fmt.Sprint(c.Frames), c.Tail, fmt.Sprint(c.Cuts), c.FailAt, c.NilShort, c.FailKind, c.Transient, c.Prelude, c.DataErr, c.PreludeBlock, c.PreludeFailAt)
 		}
 		rec.Class("nontrivial:" + c.Mode)
 	}
@@ -432,6 +474,9 @@ func eval(t vk.TB, c Case, constructed bool) {
 	}
 	if c.Prelude != "" {
 		rec.Class("codec_value_shared_with_another_connection")
+		if c.PreludeBlock {
+			rec.Class("other_connection_failed_in_blocking_extractor:" + c.FailKind)
+		}
 	}
 	if c.DataErr {
 		rec.Class("final_octets_returned_together_with_EOF")
